@@ -87,7 +87,12 @@ class MField(MBase):
 class MIns(MBase):
     def __init__(self, method, pos, op, idx):
         self.method, self.pos, self.op, self.idx = method, pos, op, idx
-        self.off = 0 if pos == 0 else Sym("off%d" % pos)
+        # byte offset = sum of the (symbolic) lengths of the preceding instructions: the same value whether the analysed
+        # code takes it from get_instructions_idx() or accumulates get_length() itself
+        t = Lin({}, 0)
+        for q in range(pos):
+            t = t + Lin.of(Sym("len%d" % q))
+        self.off = t.simplify()
         self.label = "ins%d(%s)" % (pos, op_name(op))
 
     @property
@@ -123,7 +128,7 @@ class MMethod(MBase):
         return "".join(self.proto)
 
     def m_get_code(self):
-        return None  # no DalvikCode object: MethodAnalysis builds no basic blocks for model methods
+        return MCode(self)
 
     def m_get_code_off(self):
         return 0
@@ -145,6 +150,42 @@ class MMethod(MBase):
 
     def m_get_triple(self):
         return (self.cls.name[1:-1], self.name, "".join(self.proto))
+
+
+class MDCode(MBase):
+    def __init__(self, method):
+        self.method = method
+        self.label = "dcode(%s)" % method.label
+
+    def m_get_instructions(self):
+        return list(self.method.ins)
+
+    def m_get_ins_off(self, off):
+        for i in self.method.ins:
+            if Labeller(None).label(i.off) == Labeller(None).label(off):
+                return i
+        return None
+
+    def m_get_length(self):
+        return Sym("code_length")
+
+
+class MCode(MBase):
+    def __init__(self, method):
+        self.method = method
+        self.label = "code(%s)" % method.label
+
+    def m_get_bc(self):
+        return MDCode(self.method)
+
+    def m_get_tries_size(self):
+        return 0
+
+    def m_get_length(self):
+        return Sym("code_length")
+
+    def m_get_registers_size(self):
+        return 1
 
 
 class MClass(MBase):
@@ -340,6 +381,22 @@ def _intern(d, ref):
 # ---------------------------------------------------------------------------------------------------------
 # interpreter with hooks for the model objects and for python containers
 # ---------------------------------------------------------------------------------------------------------
+class _NTFactory:
+    """model of collections.namedtuple(name, fields)"""
+
+    def __init__(self, name, fields):
+        self.name, self.fields = name, list(fields)
+        self.label = "namedtuple %s" % name
+
+
+class _NT(tuple):
+    """instance of a model namedtuple: a tuple whose fields are also attributes"""
+    _nt_fields = ()
+
+    def field(self, name):
+        return self[self._nt_fields.index(name)]
+
+
 class _Graph:
     """model of networkx.DiGraph (only what get_call_graph needs)"""
 
@@ -365,6 +422,18 @@ class XInterp(Interp):
         finally:
             self.depth = saved
             self._xdepth -= 1
+
+    def call_value(self, callee, name, args, kwargs, e, env, func):
+        r = super().call_value(callee, name, args, kwargs, e, env, func)
+        if isinstance(r, Sym) and r.op == "call":
+            raise AnalysisError("%s: the call %s is not evaluated on the model (callee %s)" % (func.loc(e) if func is not None else "?", ast.unparse(e)[:80] if e is not None else name, show(callee)[:60]))
+        return r
+
+    def call_method(self, recv, name, args, kwargs, e, env, func):
+        r = super().call_method(recv, name, args, kwargs, e, env, func)
+        if isinstance(r, Sym) and r.op == "call":
+            raise AnalysisError("%s: the method call %s is not evaluated on the model (receiver %s)" % (func.loc(e) if func is not None else "?", ast.unparse(e)[:80] if e is not None else name, show(recv)[:60]))
+        return r
 
     def eval(self, e, env, func):
         if isinstance(e, ast.DictComp):
@@ -487,8 +556,32 @@ class Runner:
             if attr.startswith("m_") or not hasattr(base, attr):
                 raise AnalysisError("model: %s has no attribute %s" % (type(base).__name__, attr))
             return getattr(base, attr)
+        if isinstance(base, _NT):
+            if attr in base._nt_fields:
+                return base.field(attr)
+            raise Raised("AttributeError", None, attr)
         if isinstance(base, Sym) and base.op == "module" and base.args[0] == "collections":
             return Sym("modattr", "collections", attr)
+        if isinstance(base, (Obj, Ref)):
+            cls = base.cls if isinstance(base, Obj) else (base.obj if base.kind == "class" else None)
+            if cls is not None and not (isinstance(base, Obj) and attr in base.attrs) and cls.lookup(attr) is None:
+                a = None
+                for c in cls.mro():
+                    if attr in c.attrs:
+                        a = (c, c.attrs[attr])
+                        break
+                if a is not None and not self.folder.is_enum(a[0]):
+                    v = self.folder.fold(a[1], a[0].module)
+                    if isinstance(v, Unknown) or _has_unknown(v):
+                        # a class-level table naming functions of the class body: evaluate it in the class scope
+                        from .offset_model import _ModFunc
+                        env = {n: Ref("func", f) for n, f in a[0].methods.items()}
+                        for n2, e2 in a[0].attrs.items():
+                            if n2 != attr and n2 not in env:
+                                v2 = self.folder.fold(e2, a[0].module)
+                                if not (isinstance(v2, Unknown) or _has_unknown(v2)):
+                                    env[n2] = v2
+                        return it.eval(a[1], env, _ModFunc(a[0].module))
         if isinstance(base, Obj) and base.cls is not None and attr not in base.attrs:
             f = base.cls.lookup(attr)
             if f is not None and any((isinstance(d, ast.Name) and d.id in ("property", "cached_property")) or (isinstance(d, ast.Attribute) and d.attr == "cached_property")
@@ -507,6 +600,8 @@ class Runner:
                 return m(*args, **(kwargs or {}))
             except TypeError as ex:
                 raise AnalysisError("model: %s.%s%r: %s" % (type(recv).__name__, name, tuple(args), ex))
+        if isinstance(recv, Obj) and recv.cls is not None and recv.cls.name == "MethodAnalysis" and name == "_create_basic_block":
+            return None  # basic blocks of the model methods are not built (irrelevant to the cross-references; C10/C11/C40 decide them)
         if isinstance(recv, _Graph):
             return self.graph_method(recv, name, args, kwargs)
         if isinstance(recv, Sym) and recv.op in ("module", "name") and recv.args and isinstance(recv.args[0], str):
@@ -517,6 +612,10 @@ class Runner:
                 return _Graph()
             if mod == "collections" and name == "defaultdict":
                 return self.defaultdict(args)
+            if mod == "collections" and name == "namedtuple" and len(args) >= 2 and isinstance(args[0], str):
+                fields = args[1].replace(",", " ").split() if isinstance(args[1], str) else [x for x in self.seq(args[1])]
+                if all(isinstance(x, str) for x in fields):
+                    return _NTFactory(args[0], fields)
             if mod == "itertools" and name == "chain":
                 return [x for a in args for x in self.seq(a)]
             if mod == "re" and name in ("match", "search", "fullmatch") and len(args) >= 2 and all(isinstance(a, str) for a in args[:2]):
@@ -763,6 +862,18 @@ class Runner:
                 if len(args) > 2:
                     return args[2]
                 raise Raised("AttributeError", e, nm)
+        if isinstance(callee, _NTFactory):
+            vals = list(args)
+            for f in callee.fields[len(vals):]:
+                if kwargs and f in kwargs:
+                    vals.append(kwargs[f])
+                else:
+                    raise Raised("TypeError", e, "missing field %s" % f)
+            if len(vals) != len(callee.fields):
+                raise Raised("TypeError", e, "namedtuple arity")
+            t = _NT(vals)
+            t._nt_fields = tuple(callee.fields)
+            return t
         if isinstance(callee, _Graph):
             raise AnalysisError("model: DiGraph called")
         return NotImplemented
@@ -1301,7 +1412,11 @@ def report_scenario(sink, res, props, func, prop):
     nrec = sum(len(v) for v in res.exp.records.values())
     sink.count("scenarios")
     sink.count("prescribed_records", nrec)
-    mine = [d for d in diffs if prop == "C40" or prop in diff_props(*d)]
+    if prop == "C40":
+        k = _report_offsets(sink, res, diffs, tags, func)
+        sink.ob("offset-provenance", "%s (C40)" % name, k == 0, "%d instruction(s), %d prescribed records: no record deviates from the prescribed state in its offset component only" % (len(res.body), nrec))
+        return k
+    mine = [d for d in diffs if prop in diff_props(*d)]
     sink.ob("model/" + fam, "%s (%s)" % (name, prop), not mine, "%d instruction(s), %d prescribed records, %d analysis objects: every xref getter returns exactly the prescribed state" % (
         len(res.body), nrec, sum(res.exp.objects.values())))
     for kind, key, tup in diffs:
